@@ -50,7 +50,7 @@ def prepare(run):
     rc, msg = gen_table()
     if rc != 0:
         violation(run, {"broken": "translator cannot read table.rs", "detail": msg}, nofail=True)
-    source_tie(run, ("formula",))
+    source_tie(run, ("formula", "element"))
     rc, out, _ = make(["model/FormulaCheck.vo"])
     if rc != 0:
         violation(run, {"broken": "model files do not build", "detail": out[-3000:]}, nofail=True)
